@@ -283,6 +283,7 @@ func referenceLine(l []byte, bh *Header) error {
 	}
 
 	if dup {
+		rf.id = dupID
 		if er := bh.refs[dupID]; equalRefs(er, rf) {
 			return nil
 		} else if !equalRefs(er, &Reference{id: er.id, name: er.name, lRef: er.lRef}) {
